@@ -8,6 +8,8 @@ NOTE = ("Trusted: Coq 8.16.1 kernel; coq/model/SF.v as the IEEE-754 definition (
         "correspondence run and by coq/gen/*.v regenerated from /repo. ")
 def claim(text, ref, note=""):
     return dict(text=text, ref=ref, note=NOTE + note)
+RAX = ("Axioms: the standard library's real-number axioms (ClassicalDedekindReals.sig_forall_dec, ClassicalDedekindReals.sig_not_dec, "
+       "FunctionalExtensionality.functional_extensionality_dep) where a theorem is over R; the float-model theorems use none. ")
 CLAIMS = {
  "C02": claim("Theorems for every byte string: no panic / no fuel exhaustion (Done or a DecodeError), nothing delivered before the metadata is complete and Reset first, every call charged to its own consumed byte. prefix_monotone is not yet a theorem (checked by the correspondence on every truncation). Correspondence ~75k inputs through Decode (recorder, Renderer, Encoder), DecodeViewBox, Disassemble.", "§6 C02", "No axioms. Go loop termination is observed, not proved."),
  "C08": claim("Theorems (no axioms) over the Gallina model of the number codecs and quantize: natural round trip / minimality / no over-read, 4-byte rounding spec for all 2^32 patterns, exactness + shortest form + re-encode stability of reals and coordinates, nearest-1/64 quantisation, SetNReg shortest-of-three; bit-exact correspondence (~290k numbers) through build-tag exports. The zero-to-one 4-ulp bound is not a theorem (zto_*_partial).", "§6 C08", "No axioms."),
@@ -18,6 +20,15 @@ CLAIMS = {
  "C13": claim("Theorems: Reset carries the metadata's viewBox and sanitised palette, defaults for absent chunks, explicit palette entries valid / others untouched, accepted viewBoxes are valid, chunk framing (lines = bytes consumed), metadata-only decoding agrees with Decode. Correspondence ~58k metadata sections.", "§6 C13", "No axioms."),
  "C14": claim("Theorems: options are a left fold over the suggested palette, an index override changes exactly one entry, the palette reaching Reset is that fold sanitised (invalid entries become opaque black, all entries valid), valid premultiplied colours are never gradients. Correspondence: option lists incl. NRGBA/RGBA64/Gray16/Alpha16 colours into a recorder and a Renderer.", "§6 C14", "No axioms. color.RGBAModel.Convert taken from Go."),
  "C18": claim("PARTIAL. Theorems: over the write-footprint table regenerated from /repo (go/types), no function writes or aliases a package-level variable or stores through an input slice / palette parameter; any schedule of independent step machines gives each machine its solo result. Plus a -race run of 16 goroutines over shared inputs compared with serial results. The Go memory model and footprint completeness are not proved.", "§6 C18", "No axioms. Race detector covers executions run, not all interleavings."),
+ "C04": claim("Theorems: every register instruction of the Renderer model commutes with the abstraction to the specification's register machine (spec/VMSpec.v) for every state and call; Reset gives the initial machine; a path is painted with exactly the paint the machine prescribes at StartPath time (flat colour resolved, or gradient with its stops/spread/shape/matrix), or skipped entirely (all-zero / invalid colour, LOD out of range); nothing else is drawn. Correspondence: rasteriser call logs of render.Renderer vs the model on ~8k programs incl. gradients, LOD, blends and second Resets.", "§6 C04", "No axioms. NSTOPS<2 is spec-silent (modelled as skip, as the code does). x/image/vector not modelled."),
+ "C05": claim("Theorems over the reals for the one polymorphic renderer geometry (Render.rdraw/emit; its float32 instance is compared bit-for-bit with render.go): every drawing call hands the rasteriser the SVG meaning (spec/SvgPath.v) of the operation mapped by the viewBox-to-rectangle affine map, the pen / sub-path start / smooth control state stay in correspondence, for every program by induction; the map sends viewBox corners to rectangle corners. Float32 rounding error is not bounded by a theorem.", "§6 C05", RAX),
+ "C06": claim("PARTIAL. Theorems: over R, for the polymorphic endpoint-to-centre conversion the float model runs, start and end points lie on the ellipse with the computed centre/rotation/radii (radii scaled up uniformly exactly when too small) and are recovered by rotating back; a relative arc's end is pen+offset; a sweep of at most one turn needs at most 4 segments; on the float model a zero/NaN radius gives exactly one LineTo to the mapped end point, otherwise n CubeTo calls and nothing else. Not proved: each cubic's end point against the angle algebra, flag semantics, float error. Correspondence: ~7.5k arcs bit-exact incl. the Go math kernels.", "§6 C06", RAX),
+ "C07": claim("PARTIAL. Theorems: for every call sequence an accepting Encoder and a Renderer hold the same CSEL/NSEL after every prefix (both follow the decoder's selector machine), read-backs return them, and the generator's gradient helpers emit the same calls or the same error into either. Not yet a theorem: equality of rasteriser activity via encode+decode (needs the C01 round trip). Correspondence: direct vs encode+decode rasteriser logs, selectors after every call, logger pass-through.", "§6 C07", "No axioms."),
+ "C15": claim("PARTIAL. Theorems over R for the one polymorphic Spread.Clamp (float64 instance compared bit-for-bit): none = identity, pad clamps to [0,1], reflect is the period-2 triangle wave, repeat the fractional part, results in [0,1]; interpolation between premultiplied stops stays premultiplied and hits the stop colours at the ends; pix2grad is the affine map. Not a theorem: that Gradient.At's range search returns the interpolation at the clamped offset (compared on thousands of pixels).", "§6 C15", RAX),
+ "C16": claim("PARTIAL. Theorems at the level of the calls reaching the rasteriser: moving the target rectangle changes only each Draw's rectangle (source point stays (0,0)), for every program incl. arcs and gradients; indirect colours are resolved when stored so palette/register/blend forms hand over the same paints; the vec wrapper uses the configured operator for the first Draw only. Not proved: pixels from calls (x/image/vector unmodelled), scale invariance (exercised bit-exactly on the implementation by PIXEQ runs).", "§6 C16", "No axioms."),
+ "C17": claim("Theorems: after Reset an Encoder (whatever its history: errors, open path, pending run, hi-res flag) is observationally the zero value after the same Reset, for all continuations; likewise the Renderer model after Reset+SetRasterizer depends on nothing before; decoding is a function of the bytes. Correspondence: reused vs fresh objects side by side (REUSE/EREUSE cases incl. selectors).", "§6 C17", "No axioms."),
+ "C19": claim("Theorems: over R the linear/circular/elliptical matrices map the requested geometry to the unit gradient space (start->0, end->1, constancy along the normal; centre->0, radius points->norm 1; ellipse conjugate radii); on the specification's register machine SetGradient lays out stops/matrix at the advertised registers, restores the selectors, rejects more than 58 stops and selector ranges in use; composed with C04 the stops given are the ones painted. Correspondence ~3.8k helper calls bit-exact.", "§6 C19", RAX),
+ "C20": claim("PARTIAL. Theorems: generate.SetPathData on the printed form of EVERY structured path of its dialect (commands, repeated groups, any separator choice the dialect allows, z/Z, final z) makes exactly the calls the path spells: StartPath(adj) for the first move, demoted lines for its repeats, close-and-move for later moves, arcs with rotation/360 and flags, one EndPath; over R Concat is composition and normalize applies the full transform to absolute operands, the scale to relative ones and to arc radii; the converter uses one register per distinct opacity and two half-turn arcs per circle. Not proved: the converter's byte-level parser against a printer (correspondence only: ~16k strings).", "§6 C20", RAX + "Decimal-to-float conversion modelled as exact-rational rounding (validated against strconv by the run)."),
 }
 props = [json.loads(l)["id"] for l in open(os.path.join(V, "properties.jsonl"))]
 hooks = subprocess.run(["git", "-C", "/repo", "log", "--format=%H %s"], capture_output=True, text=True).stdout.splitlines()
